@@ -2,9 +2,11 @@
 CLAIMED = {
  'C01': dict(
    technique='Lean 4 theorems (iteratedDeriv / coefficient recurrences) about a hand-written model + differential correspondence model<->code',
-   text=('Theorems for every D, every input series and every d<D: analytic layer (model coefficient = (1/d!) d^d/dt^d f(x(t)) at 0) for exp, sin, cos, log, sqrt, reciprocal; '
-         'formal layer (defining convolution identity over any char-0 field) for the same. The other functions of the property are modelled (all 34 entry points) and tied by the '
-         'correspondence run (exact-rational model vs float/complex implementation) plus an independent Cauchy-integral oracle on the implementation; their all-input theorems are not proved yet (partial).')),
+   text=('Theorems for every D, every input series and every d<D: analytic layer (model coefficient = (1/d!) d^d/dt^d f(x(t)) at 0, Mathlib iteratedDeriv) for exp, expm1, log, log1p, sqrt, reciprocal, '
+         'real/negative-integer/natural powers, sin, cos, tan, sinh, cosh, tanh, arctan, arcsin, arccos, logit, expit, erf/erfi (for any antiderivative of c*exp(-+y^2)), absolute, sign, minimum, maximum; '
+         'the jet lemma (Taylor coefficients of f o X depend only on those of X) makes every kernel theorem hold for the jet of any smooth germ, so compositions of kernels are covered; '
+         'formal layer (defining convolution identity over any char-0 field, i.e. also complex coefficients) for exp, log, sqrt, sin/cos, reciprocal. Not proved (modelled, tied by the correspondence run '
+         'and checked by the Cauchy-integral oracle only): gammaln, psi, polygamma, hyperu (_eval_slow_generic), dawsn (generic ODE solver), botched_clip; complex-coefficient analytic statements (partial).')),
  'C12': dict(
    technique='Lean 4 theorems (prefix stability of the build combinator) + truncation oracle on the implementation',
    text=('Theorem (F x).take D\' = F (x.take D\') for every L0 kernel that is a build/convolution recurrence (28 theorems, any field): arithmetic, exp, log, sqrt, powers, '
